@@ -386,6 +386,97 @@ func init() {
 	})
 }
 
+func init() {
+	registerCheck(&CheckDef{
+		ID: "C04",
+		Runs: func(tier string) []HarnessRun {
+			os := repoMod + "/internal/outputstream"
+			return []HarnessRun{{Name: "resume", Pkg: "internal/api", PkgName: "api", Files: []string{"apipkg/common.go", "apipkg/c11.go", "apipkg/post.go", "apipkg/c04.go"}, APIs: []string{"http"},
+				Entry: "verifHarness_C04_resume", Params: map[string]int{"batches": p4(tier, 3, 4), "replies": p4(tier, 2, 3)}, Unwind: 12, NoReplay: true,
+				Redirect: map[string]string{"(*" + os + ".OutputStream).Get": "verifStub_osGet", "(*" + os + ".OutputStream).GetNext": "verifStub_osGetNext", "time.Sleep": "verifStub_sleepLag"}}}
+		},
+		Assumptions: []string{
+			"OutputStream.Get/GetNext are replaced by their specification (assume-guarantee with C08): Get finds an applied batch by id; GetNext returns the applied batch with the smallest larger id, else blocks until the node applies another batch and returns that one, else (nothing more in the scenario) the context is cancelled",
+			"the node's applied prefix may be shorter than what the client has seen and may grow at every GetNext call and during the 250 ms back-off",
+			"one connection per query; successive connections compose because each starts from a truly seen lastseen",
+		},
+		Bounds:    func(tier string) map[string]interface{} { return map[string]interface{}{"batches": p4(tier, 3, 4), "replies_per_batch": p4(tier, 2, 3), "loop_unwind": 12} },
+		Outside:   []string{"HTTP/JSON framing", "ping goroutine", "supersede logic", "resume points older than the compaction horizon", "native replay (methods of OutputStream cannot be redirected natively): counterexamples are solver models; both known defects were reproduced natively against the real OutputStream at design time (§11)"},
+		Functions: []string{"api.(*HTTP).getMessages", "api.outputToRobustMessages"},
+		Rule:      "one case per (number of batches, replies per batch, resume position, lag of the node); non-trivial when the delivery sequence is compared",
+	})
+}
+
+func init() {
+	registerCheck(&CheckDef{
+		ID: "C02",
+		Runs: func(tier string) []HarnessRun {
+			i := repoMod + "/internal"
+			return []HarnessRun{{Name: "snapshot-bookkeeping", Pkg: "", PkgName: "main", Files: []string{"main/c02.go", "main/c07.go", "main/c16.go"}, SymFiles: []string{"main/tmp_sym.go"}, NatFiles: []string{"main/tmp_native.go"},
+				Entry: "verifHarness_C02_snapshot", Params: map[string]int{"entries": p4(tier, 3, 4)}, Unwind: 10, NoReplay: true,
+				Redirect: map[string]string{
+					"(*" + i + "/ircserver.IRCServer).Unmarshal":       "verifStub_Unmarshal",
+					"(*" + i + "/ircserver.IRCServer).Marshal":         "verifStub_Marshal",
+					"(*" + repoMod + ".FSM).applyRobustMessage":        "verifStub_foldEntry",
+					"(*" + i + "/outputstream.OutputStream).Delete":    "verifStub_outDelete",
+				}}}
+		},
+		Assumptions: []string{
+			"the IRC state is abstracted to the set of entries it folds (ghost carried by stubs of Unmarshal / applyRobustMessage / Marshal); the content of the serialized state is C03's obligation, determinism of the fold C01's",
+			"the log copy is the real LevelDBStore over the LevelDB model; entries are protobuf-encoded (abstract codec)",
+			"pre-state: bookkeeping invariant — the state filed under (first stored index - 1) folds exactly the applied entries that are not stored; stored entries at increasing raft indexes with arbitrary gaps and arbitrary timestamps; arbitrary compaction time and session expiration",
+			"induction: after the snapshot one more entry is applied at an arbitrary later index and the lookup key of the next snapshot is examined",
+		},
+		Bounds:    func(tier string) map[string]interface{} { return map[string]interface{}{"stored_entries": p4(tier, 3, 4), "snapshots": "one per obligation (inductive step)"} },
+		Outside:   []string{"Persist/Restore byte streams (bufio/io readers are not encoded), failed snapshot writes, process restarts", "JSON-format snapshots, robustirc-canary", "real LevelDB and file snapshot store behaviour", "native replay (repository methods are redirected): counterexamples are solver models; the reported defect was reproduced natively at design time (§11)"},
+		Functions: []string{"main.(*FSM).Snapshot", "raftstore.(*LevelDBStore).FirstIndex/LastIndex/GetBulkIterator/DeleteRange/GetLog/StoreLogProto", "robust.NewMessageFromBytes", "robust.(*Message).Timestamp"},
+		Rule:      "one case per number of stored entries and feasible pattern of old/new timestamps; non-trivial when the post-snapshot obligations are evaluated",
+	})
+	registerCheck(&CheckDef{
+		ID: "C20",
+		Runs: func(tier string) []HarnessRun {
+			r := ircRun("ircserver-locksets", "verifHarness_C20_ircserver", map[string]int{"S": 2, "C": 1, "L": 3, "sym": 0})
+			r.Files = append(append([]string{}, ircFiles...), "ircserver/c20.go")
+			r.Race = true
+			r.ReplayRuns = 20
+			return []HarnessRun{r}
+		},
+		Assumptions: []string{
+			"data-race freedom is reduced to lock discipline: for every pair of operations the running system executes concurrently, every two conflicting accesses to the same memory location share a mutex that the writer holds in write mode",
+			"operations are executed one after the other on the same symbolic state with the engine's lock table and access log; the solver decides which paths (and hence which accesses) are feasible",
+			"a lockset conflict is reported only when the native replay under the race detector (-race, the two operations in parallel, 20 rounds) reports a data race",
+		},
+		Bounds:    func(tier string) map[string]interface{} { return map[string]interface{}{"operation_pairs": "8 writer-side x 16 reader-side operations of IRCServer", "state": "2 sessions, 1 channel, fixed shape"} },
+		Outside:   []string{"happens-before edges other than mutexes (channels, goroutine start)", "schedules (this is a discipline check, not an exploration of interleavings)", "OutputStream, LevelDBStore, api.HTTP and FSM operations (their lock tables are exercised by C08/C09 harnesses but pairs are not enumerated here)", "races inside libraries"},
+		Functions: []string{"ircserver.(*IRCServer).ProcessMessage", "UpdateLastClientMessageID", "CreateSession", "SetLastProcessed", "MaybeDeleteSession", "ThrottleUntil", "Marshal", "ExpireSessions", "GetSessions", "GetSession", "GetNick", "LastPostMessage", "NumSessions", "NumChannels", "SessionLimit", "ChannelLimit", "TrustedBridge", "Banned", "GetAuth", "OriginWhitelisted", "captchaConfigured"},
+		Rule:      "one case per operation pair; non-trivial when both operations ran and the access logs were compared",
+	})
+	registerCheck(&CheckDef{
+		ID: "C01",
+		Runs: func(tier string) []HarnessRun {
+			runs := ircStepRuns("verifHarness_C01_step", tier, false, "L", 3, "K", 2, "P", 2, "permute", 1)
+			for k := range runs {
+				runs[k].Permute = 5
+				runs[k].ReplayRuns = 256
+			}
+			return runs
+		},
+		Assumptions: append(append([]string{}, ircAssumptions...),
+			"2-safety by self-composition: the step is executed twice on the same symbolic state and entry (same draws); the first execution iterates every hash map in canonical order, the second iterates ONE range statement (chosen by the solver) with an arbitrary entry moved to the front; every clock reading is a fresh symbol",
+			"map-order counterexamples are replayed natively up to 256 times (Go randomises iteration) and must show two different outputs"),
+		Bounds: func(tier string) map[string]interface{} {
+			b := ircBounds(tier)
+			b["map_iteration_order"] = "one range statement per execution in a rotated order (moves any one entry before all others), maps with up to 5 entries"
+			b["string_bytes"] = 3
+			b["params"] = 2
+			return b
+		},
+		Outside:   append(append([]string{}, ircOutside...), "order effects that need two range statements reordered simultaneously, or maps with more than 5 entries", "CreateSession/DeleteSession/Config entry types (single straight-line calls without map iteration, except DeleteSession which runs the QUIT handler covered here)"),
+		Functions: ircFunctions,
+		Rule:      "one case per (role, command, parameter count); non-trivial when both executions completed and were compared",
+	})
+}
+
 func p4(tier string, q, t int) int {
 	if tier == "thorough" {
 		return t
